@@ -376,6 +376,37 @@ func c19ArgList(n int) string {
 	return "(" + strings.Join(names, ", ") + ")"
 }
 
+// c19ArgListComputed: every argument written as a filter expression that yields the argument itself
+// (default replaces the empty and the undefined by its own argument: x|default(x) is x)
+func c19ArgListComputed(args []interface{}) string {
+	if len(args) == 0 {
+		return ""
+	}
+	names := make([]string, len(args))
+	for i := range names {
+		a := "a" + strconv.Itoa(i)
+		names[i] = a
+		if !c19Empty(args[i]) && args[i] != false {
+			names[i] = a + "|default(" + a + ")"
+		}
+	}
+	return "(" + strings.Join(names, ", ") + ")"
+}
+
+func c19TemplateComputed(f string, v interface{}, args []interface{}, proj string) string {
+	call := "v|" + f + c19ArgListComputed(args)
+	if !c19Empty(v) && v != false {
+		call = "(v|default(v))|" + f + c19ArgListComputed(args)
+	}
+	switch proj {
+	case "list":
+		return "{{ " + call + "|join(sep|default(sep)) }}"
+	case "map":
+		return "{% for k, x in " + call + " %}{{ k }}{{ sep }}{{ x }}{{ sep }}{% endfor %}"
+	}
+	return "{{ " + call + " }}"
+}
+
 func c19Template(f string, nargs int, proj string) string {
 	call := "v|" + f + c19ArgList(nargs)
 	switch proj {
@@ -504,6 +535,19 @@ func c19Generic(eng *c19Engine, c Case, res *Result) {
 			kind = "oracle"
 		}
 		c19Add(res, Finding{Kind: kind, Where: f + "/template", Case: c, Expected: hx(want), Observed: rclass + ":" + hx(o), Detail: "template " + c19Template(f, len(args), proj) + " " + rdetail})
+	}
+	// the same call with every operand and argument computed by a filter of its own
+	if !undefined && (len(args) > 0 || proj == "list") {
+		res.Evaluations++
+		res.Hist["arguments-computed-by-filters"]++
+		o2, rclass2, rdetail2 := eng.render(c19TemplateComputed(f, v, args, proj), ctx)
+		if o2 == "-0" && (f == "round" || f == "abs") {
+			o2 = "0"
+		}
+		if rclass2 != rclass || o2 != o {
+			c19Add(res, Finding{Kind: "oracle", Where: f + "/computed-arguments", Case: c, Expected: rclass + ":" + hx(o), Observed: rclass2 + ":" + hx(o2),
+				Detail: "template " + c19TemplateComputed(f, v, args, proj) + " differs from " + c19Template(f, len(args), proj) + " " + rdetail2})
+		}
 	}
 }
 
